@@ -301,6 +301,34 @@ func (e *Eval) builtin(fr *frame, x *ssa.Call, name string, args []AV, st State)
 			return BytesV{Src: "⊤: append"}
 		}
 		return e.topOf(x.Type(), "append")
+	case "min", "max":
+		// integer operands with known bounds
+		lo, hi := int64(0), int64(0)
+		okAll := len(args) > 0
+		for i, a := range args {
+			iv, ok := a.(IntV)
+			l, h, okb := iv.Bounds(fr.T())
+			if !ok || !okb {
+				okAll = false
+				break
+			}
+			if i == 0 {
+				lo, hi = l, h
+				continue
+			}
+			if name == "min" {
+				lo, hi = minI(lo, l), minI(hi, h)
+			} else {
+				lo, hi = maxI(lo, l), maxI(hi, h)
+			}
+		}
+		if okAll {
+			if lo == hi {
+				return CInt(lo)
+			}
+			return RangeInt(lo, hi)
+		}
+		return e.topOf(x.Type(), name)
 	case "print", "println":
 		return TupleV{}
 	case "panic":
@@ -308,8 +336,6 @@ func (e *Eval) builtin(fr *frame, x *ssa.Call, name string, args []AV, st State)
 		return TupleV{}
 	case "delete":
 		return TupleV{}
-	case "min", "max":
-		return e.topOf(x.Type(), name)
 	}
 	return e.topOf(x.Type(), "builtin "+name)
 }
